@@ -47,7 +47,16 @@ func (p c01) Run(c *core.Ctx) {
 	var sc *world.Scenario
 	orders := tierN(c.Tier, 3, 5)
 	rc := p.randomCount(c.Tier)
-	if c.Index < rc {
+	var plan map[string]world.SubPlan
+	if c.Index < rc && c.Index%4 == 3 {
+		// interface-only graph with a substituting post-processor: versions (wrappers) must be shared like instances
+		sc = RandomGraph(c.Rng, GraphOpts{MinN: 2, MaxN: 9, Types: plainAB, PCycle: 0.8, Chords: 2, ByTypeSlice: 0.3, OnlyIface: true, PUnnamed: 0.3})
+		plan = map[string]world.SubPlan{}
+		for x := 0; x < 1+c.Rng.Intn(2); x++ {
+			nm := sc.Nodes[c.Rng.Intn(len(sc.Nodes))].DisplayName()
+			plan[nm] = []world.SubPlan{{Early: true}, {Early: true}, {After: true}, {Before: true}}[c.Rng.Intn(4)]
+		}
+	} else if c.Index < rc {
 		sc = RandomGraph(c.Rng, GraphOpts{MinN: 3, MaxN: 14, Types: world.TypesAll, PCycle: 0.7, Chords: 2,
 			ByTypeSlice: 0.25, QualSlice: 0.2, ByTypeUniq: 0.2, PUnnamed: 0.3})
 	} else {
@@ -77,7 +86,12 @@ func (p c01) Run(c *core.Ctx) {
 			g := world.G{Rng: c.Rng, Sc: sc}
 			g.ShuffleOrders()
 		}
-		r := world.Start(sc, world.Options{})
+		var extra []any
+		if plan != nil {
+			extra = append(extra, world.NewSubstituter(plan))
+			c.Count("starts_with_substituter", 1)
+		}
+		r := world.Start(sc, world.Options{Extra: extra})
 		c.Count("starts", 1)
 		switch r.Outcome() {
 		case "error":
@@ -90,7 +104,9 @@ func (p c01) Run(c *core.Ctx) {
 		}
 		pop := world.Describe(r.Population())
 		problems := r.CheckIdentity(pop)
-		problems = append(problems, checkGetComponents(r, pop)...)
+		if plan == nil {
+			problems = append(problems, checkGetComponents(r, pop)...)
+		}
 		ev := r.Tracer.Events()
 		for name, k := range EarlyRunsPerCreation(ev) {
 			if k > 1 {
@@ -122,7 +138,7 @@ func (p c01) Run(c *core.Ctx) {
 			c.Distinct("shapes_"+strings.ReplaceAll(shape, " ", "_"), sc.GraphSig())
 		}
 		if len(problems) > 0 {
-			c.Fail("", problems[0], failDetail(sc, r, map[string]any{"problems": problems}))
+			c.Fail("", problems[0], failDetail(sc, r, map[string]any{"problems": problems, "substitution_plan": plan}))
 			return
 		}
 		if o == 0 && c.WantSample() && shape != "dag" {
